@@ -186,3 +186,24 @@ pub fn parse_with_stream_error(s: &str, fail_at: usize, o: Opts) -> PRes {
 	});
 	wrap(|| Value::parse_utf8_with(it, options(o)))
 }
+
+/// Parses a scalar document through the typed `Parse` impls (`bool`, `()`,
+/// `NumberBuf`, `String`) chosen by `kind` ('t'/'f', 'n', '0', '"').
+/// These impls neither skip surrounding whitespace nor check what follows, so
+/// callers only use them on texts that are exactly one scalar token.
+pub fn parse_typed(kind: char, s: &str, slice: bool) -> Result<(Value, Map), PErr> {
+	use json_syntax::NumberBuf;
+	fn fin<T, E>(r: Result<Result<(T, CodeMap), Error<E>>, String>, f: impl FnOnce(T) -> Value) -> Result<(Value, Map), PErr> {
+		match r {
+			Ok(Ok((v, cm))) => Ok((f(v), map_of(&cm))),
+			Ok(Err(e)) => Err(norm_err(e)),
+			Err(p) => Err(PErr::Panic(p)),
+		}
+	}
+	match kind {
+		't' | 'f' => fin(guard(|| if slice { bool::parse_slice(s.as_bytes()) } else { bool::parse_str(s) }), Value::Boolean),
+		'n' => fin(guard(|| if slice { <()>::parse_slice(s.as_bytes()) } else { <()>::parse_str(s) }), |()| Value::Null),
+		'"' => fin(guard(|| if slice { json_syntax::String::parse_slice(s.as_bytes()) } else { json_syntax::String::parse_str(s) }), Value::String),
+		_ => fin(guard(|| if slice { NumberBuf::parse_slice(s.as_bytes()) } else { NumberBuf::parse_str(s) }), Value::Number),
+	}
+}
